@@ -169,6 +169,9 @@ class ConcurrentExecutor(ABC, Generic[CallableType, ResultType]):
 
         # Event-driven state tracking for when the executor is done
         self._completion_event = threading.Event()
+        # A branch's outcome becomes visible in two places - its state and the counters. Whoever
+        # decides "complete or suspend" must see both or neither.
+        self._decision_lock = threading.Lock()
         self._suspend_exception: SuspendExecution | None = None
         # A BaseException that is not a branch outcome (e.g. checkpointing failed): re-raised by execute()
         self._fatal_exception: BaseException | None = None
@@ -279,10 +282,11 @@ class ConcurrentExecutor(ABC, Generic[CallableType, ResultType]):
                     raise self._fatal_exception
 
                 # Suspend execution if everything done and at least one of the tasks raised a suspend exception -
-                # unless the completion policy has been decided in the meantime: a branch that finishes
-                # publishes its state before it is counted, and a sibling that suspends in between sees
-                # "undecided" and "nothing running". The decided operation returns its result.
-                if self._suspend_exception and not self.counters.should_complete():
+                # unless the completion policy has been decided in the meantime. The decided operation
+                # returns its result.
+                with self._decision_lock:
+                    decided = self.counters.should_complete()
+                if self._suspend_exception and not decided:
                     raise self._suspend_exception
 
         finally:
@@ -346,8 +350,9 @@ class ConcurrentExecutor(ABC, Generic[CallableType, ResultType]):
 
         try:
             result = future.result()
-            exe_state.complete(result)
-            self.counters.complete_task()
+            with self._decision_lock:
+                exe_state.complete(result)
+                self.counters.complete_task()
         except OrphanedChildException as e:
             # Parent already completed and returned.
             # State is already RUNNING, which _create_result() marked as STARTED
@@ -367,8 +372,9 @@ class ConcurrentExecutor(ABC, Generic[CallableType, ResultType]):
             exe_state.suspend()
             # For indefinite suspend, don't schedule resume
         except Exception as e:  # noqa: BLE001
-            exe_state.fail(e)
-            self.counters.fail_task()
+            with self._decision_lock:
+                exe_state.fail(e)
+                self.counters.fail_task()
         except BaseException as e:  # noqa: BLE001
             # e.g. BackgroundThreadError: not an outcome of the branch. This callback runs in
             # a pool thread, so wake the thread blocked in execute(), which re-raises it.
@@ -377,13 +383,14 @@ class ConcurrentExecutor(ABC, Generic[CallableType, ResultType]):
             return
 
         # Check if execution should complete or suspend
-        if self.counters.should_complete():
-            self._completion_event.set()
-        else:
-            suspend_result = self.should_execution_suspend()
-            if suspend_result.should_suspend:
-                self._suspend_exception = suspend_result.exception
+        with self._decision_lock:
+            if self.counters.should_complete():
                 self._completion_event.set()
+            else:
+                suspend_result = self.should_execution_suspend()
+                if suspend_result.should_suspend:
+                    self._suspend_exception = suspend_result.exception
+                    self._completion_event.set()
 
     def _create_result(self) -> BatchResult[ResultType]:
         """
